@@ -10,6 +10,7 @@ import contracts.domain as d
 d.declare(e)
 d.declare_io(e)
 d.declare_licensing(e)
+d.declare_cli(e)
 allv=[]
 for fn in fns:
     t=time.time()
